@@ -124,6 +124,13 @@ impl Machine for HcMachine {
                 }
                 return String::from("ok");
             }
+            "digest" => {
+                // `len:fnv` of a payload argument (generator helper for payloads too large to hash in the scripts' language)
+                return match t.next().and_then(util::payload_arg) {
+                    Some(p) => util::digest(&p),
+                    None => bad(),
+                };
+            }
             "fwd" => {
                 let src = match t.next() { Some(x) => x.to_string(), None => return bad() };
                 let idx: usize = match t.num() { Some(x) => x, None => return bad() };
